@@ -12,7 +12,7 @@ def scenarios(ctx, rng):
     cases = []
     n = 36 if ctx.tier == "quick" else 900
     kinds = ["basic", "update_upstream", "update_listen", "traffic_in_flight", "parked_then_half_close", "stop_during_dial", "reset_enables",
-             "populate_replace", "many_connections", "populate_replace_disabled", "accept_failed", "held_end_of_stream"]
+             "populate_replace", "many_connections", "populate_replace_disabled", "accept_failed", "held_end_of_stream", "wildcard_to_specific"]
     for i in range(n):
         g = i % 6
         b = T.port_base(g)
@@ -40,6 +40,23 @@ def scenarios(ctx, rng):
             add({"op": "send", "id": s, "n": 32})
             add({"op": "recv", "id": c, "up": s, "n": 32, "ms": 1500}, ("got_all",))
 
+        if kind == "wildcard_to_specific":
+            # a proxy listening on every local address, re-addressed (update or populate) to one address on the same port: the other
+            # addresses refuse afterwards and the connections made through them are gone
+            W = rng.choice(["0.0.0.0:%d" % px, ":%d" % px])
+            B1 = "127.0.0.2:%d" % px
+            add(T.api("POST", "/proxies", {"name": "p", "listen": W, "upstream": U1}), ("status", 201))
+            connect("c1", "s1", addr=B1)
+            if rng.chance(1, 2):
+                add(T.api("POST", "/proxies/p", {"listen": A1}), ("status", 200))
+            else:
+                add(T.api("POST", "/populate", [{"name": "p", "listen": A1, "upstream": U1}]), ("status", 201))
+            add({"op": "recv", "id": "c1", "up": "s1", "n": 1, "ms": 2000}, ("ended",))
+            add({"op": "recv", "id": "s1", "up": "c1", "n": 1, "ms": 2000}, ("ended",))
+            add({"op": "dial", "id": "cx", "addr": B1}, ("dial_refused",))
+            connect("c2", "s2", addr=A1)
+            cases.append({"ops": ops, "exp": exp, "group": g, "kind": kind, "how": how})
+            continue
         add(T.api("POST", "/proxies", {"name": "p", "listen": A1, "upstream": U1}), ("status", 201))
         if kind == "basic":
             connect("c1", "s1")
